@@ -340,6 +340,9 @@ class FuncDep:
             for a in e.args:
                 v |= self.deps(a, env)
             base = e.func.value
+            if isinstance(base, ast.Call) and isinstance(base.func, ast.Attribute) and base.func.attr in ("setdefault", "get") and base.args:
+                # d.setdefault(k, []).append(v)  ==  d[k].append(v)  (the element is created on demand)
+                base = ast.copy_location(ast.Subscript(value=base.func.value, slice=base.args[0], ctx=ast.Load()), base)
             if isinstance(base, ast.Name):
                 env[base.id] = set(env.get(base.id, self.deps(base, env))) | v
             elif isinstance(base, ast.Attribute):
